@@ -1,6 +1,7 @@
 package harness
 
 import (
+	jmespath_pb "github.com/buildbarn/bb-storage/pkg/proto/configuration/jmespath"
 	"context"
 	"fmt"
 	"sort"
@@ -61,7 +62,13 @@ const (
 	c18KCfgAllow         // real authorizer built by the configuration factory: allow
 	c18KCfgDeny          // … deny
 	c18KCfgPrefix        // … instanceNamePrefix
+	c18KCfgJMES          // … jmespathExpression over the caller's authentication metadata
 )
+
+// What the caller's authentication metadata holds for (JMESPath leaf, name);
+// only the boolean true grants.
+var c18JMESValues = []interface{}{true, false, nil, "yes", float64(1), []interface{}{true}, map[string]interface{}{"granted": true}}
+var c18JMESValueNames = []string{"true", "false", "null", `"yes"`, "1", "[true]", "{granted:true}"}
 
 // c18Rec collects what the stubs observed during one run.
 type c18Rec struct {
@@ -115,6 +122,7 @@ type c18Node struct {
 	Kind     int
 	Out      map[string]int // stub / staticFn: outcome per instance name (missing = deny)
 	Prefixes []string       // cfgPrefix
+	Vals     map[string]int // cfgJMES: index into c18JMESValues per instance name (missing = field absent)
 	// any
 	Members []*c18Node
 }
@@ -128,6 +136,17 @@ func (n *c18Node) String() string {
 			return n.ID + ":cfgDeny"
 		case c18KCfgPrefix:
 			return fmt.Sprintf("%s:cfgPrefix%q", n.ID, n.Prefixes)
+		case c18KCfgJMES:
+			var keys []string
+			for k := range n.Vals {
+				keys = append(keys, k)
+			}
+			sort.Strings(keys)
+			var p []string
+			for _, k := range keys {
+				p = append(p, fmt.Sprintf("%q=%s", k, c18JMESValueNames[n.Vals[k]]))
+			}
+			return n.ID + ":cfgJMES(" + strings.Join(p, " ") + ")"
 		}
 		var keys []string
 		for k := range n.Out {
@@ -229,6 +248,12 @@ func (n *c18Node) leafOutcome(name string) int {
 		return c18Deny
 	case c18KCfgPrefix:
 		if c18PrefixMatch(n.Prefixes, name) {
+			return c18Allow
+		}
+		return c18Deny
+	case c18KCfgJMES:
+		// the expression must evaluate to the boolean true, nothing else
+		if v, ok := n.Vals[name]; ok && v == 0 {
 			return c18Allow
 		}
 		return c18Deny
@@ -375,6 +400,9 @@ func (n *c18Node) build(rec *c18Rec) auth.Authorizer {
 	case c18KCfgPrefix:
 		cfg = &auth_pb.AuthorizerConfiguration{Policy: &auth_pb.AuthorizerConfiguration_InstanceNamePrefix{
 			InstanceNamePrefix: &auth_pb.InstanceNameAuthorizer{AllowedInstanceNamePrefixes: append([]string{}, n.Prefixes...)}}}
+	case c18KCfgJMES:
+		cfg = &auth_pb.AuthorizerConfiguration{Policy: &auth_pb.AuthorizerConfiguration_JmespathExpression{
+			JmespathExpression: &jmespath_pb.Expression{Expression: n.jmesExpression()}}}
 	}
 	// The factory main.go uses (without the deduplicating cache, which is a
 	// process-wide map).
@@ -460,4 +488,46 @@ type c18Slicer struct{}
 
 func (c18Slicer) Slice(b buffer.Buffer, childDigest digest.Digest) (buffer.Buffer, []slicing.BlobSlice) {
 	return b, nil
+}
+
+// jmesExpression: for every name of the universe one term
+// (instanceName == '<name>' && authenticationMetadata.private.<leaf>.n<i>),
+// joined by ||. JMESPath's && and || hand on operands, not booleans, so the
+// result is whatever the metadata holds for the name when that is truth-like
+// (true, a string, a number, an array, an object) and false or null
+// otherwise.
+func (n *c18Node) jmesExpression() string {
+	var terms []string
+	for i, name := range c18Universe {
+		terms = append(terms, fmt.Sprintf("(instanceName == '%s' && authenticationMetadata.private.%s.n%d)", name, n.ID, i))
+	}
+	return strings.Join(terms, " || ")
+}
+
+// c18Metadata is the caller's authentication metadata: what every JMESPath
+// leaf of the trees looks up.
+func c18Metadata(trees [3]*c18Node) *auth.AuthenticationMetadata {
+	private := map[string]interface{}{}
+	for _, t := range trees {
+		if t == nil {
+			continue
+		}
+		for _, l := range t.leaves(nil) {
+			if l.Kind != c18KCfgJMES {
+				continue
+			}
+			m := map[string]interface{}{}
+			for i, name := range c18Universe {
+				if v, ok := l.Vals[name]; ok {
+					m[fmt.Sprintf("n%d", i)] = c18JMESValues[v]
+				}
+			}
+			private[l.ID] = m
+		}
+	}
+	am, err := auth.NewAuthenticationMetadataFromRaw(map[string]interface{}{"private": private})
+	if err != nil {
+		panic(sim.HarnessError{Msg: "authentication metadata: " + err.Error()})
+	}
+	return am
 }
